@@ -6,5 +6,5 @@ Require Extraction.
 Require Import ExtrOcamlBasic.
 Extraction "../ocaml/consensus/model.ml" base_anchor keccak256
   block_version is_hf calc_difficulty engine_calc_difficulty verify_header verify_header_top
-  verify_worker batch_results sequential first_failure verify_uncles
+  verify_worker batch_results sequential first_failure verify_uncles verify_uncles_v
   hash_no_nonce header_hash verify_seal mine rlp_no_nonce rlp_full.
